@@ -206,18 +206,36 @@ pub fn minimise_conc(run: &ConcRun, v: &Violation) -> (ConcRun, Violation, serde
     let mut best = v.clone();
     let mut evals = 0u32;
     let before = cur.n_ops();
+    let mut good_seed: Option<u64> = None;
     let mut fails = |cand: &ConcRun, best: &mut Violation, evals: &mut u32| -> bool {
-        if *evals >= 150 {
-            return false;
+        // dropping an operation shifts the seeded schedule: try a few other schedule seeds too
+        let mut c = cand.clone();
+        if let Some(sd) = good_seed {
+            c.sched.seed = sd;
         }
-        *evals += 1;
-        match super::driver::exec_fresh_conc(cand) {
-            Ok(Some(v2)) if v2.class() == class => {
-                *best = v2;
-                true
+        let orig = c.sched.seed;
+        for k in 0..=4u64 {
+            if *evals >= 300 {
+                return false;
             }
-            _ => false,
+            *evals += 1;
+            if k > 0 {
+                c.sched.seed = crate::rng::mix(orig, k);
+            }
+            if let Ok(Some(v2)) = super::driver::exec_fresh_conc(&c) {
+                if v2.class() == class {
+                    *best = v2;
+                    if k > 0 {
+                        good_seed = Some(c.sched.seed);
+                    }
+                    return true;
+                }
+            }
+            if matches!(c.sched.policy, Policy::Sequential) {
+                break;
+            }
         }
+        false
     };
     let mut progress = true;
     while progress {
@@ -270,6 +288,10 @@ pub fn minimise_conc(run: &ConcRun, v: &Violation) -> (ConcRun, Violation, serde
             cur = cand;
             sched_note = "schedule irrelevant: fails with tasks run one after the other";
         }
+    }
+    drop(fails);
+    if let Some(sd) = good_seed {
+        cur.sched.seed = sd;
     }
     let info = serde_json::json!({"ops_before": before, "ops_after": cur.n_ops(), "fresh_process_evaluations": evals, "schedule": sched_note});
     (cur, best, info)
